@@ -2,6 +2,7 @@ package core
 
 import (
 	"bufio"
+	"fmt"
 	"go/ast"
 	"go/printer"
 	"go/token"
@@ -36,7 +37,8 @@ import (
 // KnownFuncsFile is set by the command to /verif/checker/known_funcs.txt.
 var KnownFuncsFile string
 
-func loadKnownFuncs() map[string]bool {
+// loadKnownFuncs reads the known-functions file: key (module, package, declaration name) -> signature shape.
+func loadKnownFuncs() map[string]string {
 	if KnownFuncsFile == "" {
 		return nil
 	}
@@ -45,19 +47,149 @@ func loadKnownFuncs() map[string]bool {
 		return nil
 	}
 	defer f.Close()
-	out := map[string]bool{}
+	out := map[string]string{}
 	sc := bufio.NewScanner(f)
+	sc.Buffer(make([]byte, 1<<20), 1<<20)
 	for sc.Scan() {
-		if l := strings.TrimSpace(sc.Text()); l != "" && !strings.HasPrefix(l, "#") {
-			out[l] = true
+		l := strings.TrimRight(sc.Text(), " \r\n")
+		if l == "" || strings.HasPrefix(l, "#") {
+			continue
 		}
+		parts := strings.SplitN(l, "\t", 4)
+		if len(parts) < 3 {
+			continue
+		}
+		sig := ""
+		if len(parts) == 4 {
+			sig = parts[3]
+		}
+		out[strings.Join(parts[:3], "\t")] = sig
 	}
 	return out
 }
 
-// FuncKey is the line format of the known-functions file.
+// FuncKey is the key of the known-functions file.
 func FuncKey(module, rel string, fd *ast.FuncDecl) string {
 	return module + "\t" + rel + "\t" + DeclName(fd)
+}
+
+// SigShape renders the parameter and result types of a function (no names), relative to its package: what a rename
+// leaves unchanged.
+func SigShape(f *types.Func) string {
+	sig, _ := f.Type().(*types.Signature)
+	if sig == nil {
+		return ""
+	}
+	q := types.RelativeTo(f.Pkg())
+	var b strings.Builder
+	b.WriteString("(")
+	for i := 0; i < sig.Params().Len(); i++ {
+		if i > 0 {
+			b.WriteString(", ")
+		}
+		if sig.Variadic() && i == sig.Params().Len()-1 {
+			b.WriteString("...")
+		}
+		b.WriteString(types.TypeString(sig.Params().At(i).Type(), q))
+	}
+	b.WriteString(") (")
+	for i := 0; i < sig.Results().Len(); i++ {
+		if i > 0 {
+			b.WriteString(", ")
+		}
+		b.WriteString(types.TypeString(sig.Results().At(i).Type(), q))
+	}
+	b.WriteString(")")
+	return strings.Join(strings.Fields(b.String()), " ")
+}
+
+// NameOf is o.Name(), except that a function recognised as the renamed successor of a known function answers with the
+// name the rules know it by.
+func NameOf(o interface{ Name() string }) string {
+	if f, ok := o.(*types.Func); ok {
+		return OldName(f)
+	}
+	return o.Name()
+}
+
+// renamedFuncs maps a function that was recognised as the renamed successor of a known function to the old simple
+// name (process-wide: *types.Func values are unique per load).
+var renamedFuncs sync.Map
+
+// OldName returns the name under which the rules know f: its own, unless f is a recognised rename.
+func OldName(f *types.Func) string {
+	if f == nil {
+		return ""
+	}
+	if v, ok := renamedFuncs.Load(f.Origin()); ok {
+		return v.(string)
+	}
+	return f.Name()
+}
+
+// ExplicitReturns rewrites every bare `return` of a function (or function literal) with named results into the
+// equivalent `return r1, r2, …`, on the loaded trees: rules then see what is returned without knowing about the
+// spelling.
+func ExplicitReturns(m *Module) {
+	for _, p := range m.Roots {
+		info := p.TypesInfo
+		fix := func(ft *ast.FuncType, body *ast.BlockStmt) {
+			if ft.Results == nil || body == nil {
+				return
+			}
+			var names []*ast.Ident
+			for _, f := range ft.Results.List {
+				if len(f.Names) == 0 {
+					return
+				}
+				names = append(names, f.Names...)
+			}
+			var walk func(n ast.Node)
+			walk = func(n ast.Node) {
+				ast.Inspect(n, func(x ast.Node) bool {
+					switch y := x.(type) {
+					case *ast.FuncLit:
+						return false // handled on its own
+					case *ast.ReturnStmt:
+						if len(y.Results) == 0 {
+							for _, nm := range names {
+								o := info.Defs[nm]
+								id := &ast.Ident{Name: nm.Name, NamePos: y.Return}
+								if o != nil {
+									info.Uses[id] = o
+									tv := types.TypeAndValue{Type: o.Type()}
+									// take the mode of an existing use of the variable, if any
+									for use, uo := range info.Uses {
+										if uo == o && use != id {
+											if t, ok := info.Types[use]; ok {
+												tv = t
+												break
+											}
+										}
+									}
+									info.Types[id] = tv
+								}
+								y.Results = append(y.Results, id)
+							}
+						}
+					}
+					return true
+				})
+			}
+			walk(body)
+		}
+		for _, file := range p.Syntax {
+			ast.Inspect(file, func(n ast.Node) bool {
+				switch x := n.(type) {
+				case *ast.FuncDecl:
+					fix(x.Type, x.Body)
+				case *ast.FuncLit:
+					fix(x.Type, x.Body)
+				}
+				return true
+			})
+		}
+	}
 }
 
 // FoldNewHelpers performs helper folding on m (see above) and returns a description of what was folded.
@@ -76,13 +208,68 @@ func FoldNewHelpers(m *Module) []string {
 			}
 			for _, d := range file.Decls {
 				fd, ok := d.(*ast.FuncDecl)
-				if !ok || fd.Body == nil || known[FuncKey(m.Name, rel, fd)] {
+				if !ok || fd.Body == nil {
+					continue
+				}
+				if _, isKnown := known[FuncKey(m.Name, rel, fd)]; isKnown {
 					continue
 				}
 				if f, ok := p.TypesInfo.Defs[fd.Name].(*types.Func); ok {
 					fo.fresh[f] = fd
 				}
 			}
+		}
+		if len(fo.fresh) == 0 {
+			continue
+		}
+		// renames: a known function that is gone, and exactly one new function with the same receiver and the same
+		// parameter and result types, which in turn matches no other vanished function.  The new function takes the old
+		// one's place as an anchor and is not folded.
+		present := map[string]bool{}
+		for _, file := range p.Syntax {
+			for _, d := range file.Decls {
+				if fd, ok := d.(*ast.FuncDecl); ok {
+					present[FuncKey(m.Name, rel, fd)] = true
+				}
+			}
+		}
+		recvOf := func(declName string) string {
+			if i := strings.LastIndex(declName, "."); i >= 0 {
+				return declName[:i]
+			}
+			return ""
+		}
+		prefix := m.Name + "\t" + rel + "\t"
+		cands := map[string][]*types.Func{} // vanished key -> candidates
+		hits := map[*types.Func]int{}
+		for key, shape := range known {
+			if !strings.HasPrefix(key, prefix) || present[key] || shape == "" {
+				continue
+			}
+			oldDecl := strings.TrimPrefix(key, prefix)
+			for f, fd := range fo.fresh {
+				if recvOf(DeclName(fd)) == recvOf(oldDecl) && SigShape(f) == shape {
+					cands[key] = append(cands[key], f)
+					hits[f]++
+				}
+			}
+		}
+		for key, fs := range cands {
+			if len(fs) != 1 || hits[fs[0]] != 1 {
+				continue
+			}
+			oldDecl := strings.TrimPrefix(key, prefix)
+			oldSimple := oldDecl
+			if i := strings.LastIndex(oldDecl, "."); i >= 0 {
+				oldSimple = oldDecl[i+1:]
+			}
+			if m.Renamed == nil {
+				m.Renamed = map[string]*types.Func{}
+			}
+			m.Renamed[rel+"\t"+oldDecl] = fs[0]
+			renamedFuncs.Store(fs[0], oldSimple)
+			log = append(log, rel+"."+oldDecl+" renamed to "+fs[0].Name())
+			delete(fo.fresh, fs[0])
 		}
 		if len(fo.fresh) == 0 {
 			continue
@@ -101,9 +288,27 @@ func FoldNewHelpers(m *Module) []string {
 				}
 			}
 		}
-		for round := 0; round < 4; round++ {
+		for round := 0; round < 6; round++ {
 			if !fo.foldRound() {
 				break
+			}
+		}
+		// locals of struct types that did not exist when the rules were confirmed (the captured variables of a closure
+		// moved into a small state struct) are replaced by one variable per field
+		for _, file := range p.Syntax {
+			if strings.HasSuffix(m.Fset.File(file.Pos()).Name(), "_test.go") {
+				continue
+			}
+			for _, d := range file.Decls {
+				if fd, ok := d.(*ast.FuncDecl); ok && fd.Body != nil {
+					if n := fo.scalarReplace(fd, func(tn *types.TypeName) bool {
+						_, isKnown := known[m.Name+"\t"+rel+"\ttype "+tn.Name()]
+						return !isKnown && tn.Pkg() == p.Types
+					}); n > 0 {
+						fo.touch(fd)
+						log = append(log, fmt.Sprintf("%s.%s: %d struct local(s) replaced by their fields", rel, DeclName(fd), n))
+					}
+				}
 			}
 		}
 		for fd := range fo.touched {
@@ -111,7 +316,7 @@ func FoldNewHelpers(m *Module) []string {
 		}
 		// drop declarations nothing refers to any more
 		for f, fd := range fo.fresh {
-			if fo.references(f) == 0 && !fd.Name.IsExported() {
+			if fo.references(f) == 0 && !fd.Name.IsExported() && fo.folded[f] > 0 {
 				for _, file := range p.Syntax {
 					for i, d := range file.Decls {
 						if d == ast.Decl(fd) {
@@ -139,6 +344,7 @@ type folder struct {
 	// of the inlined source order.  touched: functions that received a copy and whose positions are renumbered.
 	prefix  map[ast.Node][]token.Pos
 	touched map[*ast.FuncDecl]bool
+	hoisted int
 }
 
 func (fo *folder) references(f *types.Func) int {
@@ -384,6 +590,12 @@ func (fo *folder) foldBlock(n ast.Node, within *ast.FuncDecl) bool {
 	fix := func(list []ast.Stmt) []ast.Stmt {
 		var out []ast.Stmt
 		for _, s := range list {
+			if pre, ok := fo.hoist(s, within); ok {
+				out = append(out, pre)
+				out = append(out, s)
+				changed = true
+				continue
+			}
 			if repl, ok := fo.foldStmt(s, within); ok {
 				out = append(out, repl...)
 				changed = true
@@ -408,6 +620,162 @@ func (fo *folder) foldBlock(n ast.Node, within *ast.FuncDecl) bool {
 	}
 	lists(n)
 	return changed
+}
+
+// hoist moves the call of a fresh helper that is the first thing a statement evaluates (`if h(x) {`, `if h(x) != nil {`,
+// `switch h(x) {`, `return h(x) == y`, `v := !h(x)`, `g(h(x), y)`) out into `t := h(x)` placed before the statement,
+// where the statement fold can then splice the helper in.
+func (fo *folder) hoist(s ast.Stmt, within *ast.FuncDecl) (ast.Stmt, bool) {
+	var head ast.Expr
+	switch x := s.(type) {
+	case *ast.IfStmt:
+		if x.Init == nil {
+			head = x.Cond
+		}
+	case *ast.SwitchStmt:
+		if x.Init == nil {
+			head = x.Tag
+		}
+	case *ast.ReturnStmt:
+		if len(x.Results) >= 1 {
+			head = x.Results[0]
+		}
+	case *ast.AssignStmt:
+		if len(x.Rhs) >= 1 {
+			lhsPure := true
+			for _, l := range x.Lhs {
+				if _, isId := l.(*ast.Ident); !isId {
+					lhsPure = false
+				}
+			}
+			if lhsPure {
+				head = x.Rhs[0]
+			}
+		}
+	case *ast.ExprStmt:
+		head = x.X
+	}
+	if head == nil {
+		return nil, false
+	}
+	// a direct call in statement position is the statement fold's business
+	switch x := s.(type) {
+	case *ast.ReturnStmt:
+		if _, isCall := unparen(head).(*ast.CallExpr); isCall && len(x.Results) == 1 {
+			if _, hd := fo.freshCallee(unparen(head).(*ast.CallExpr)); hd != nil {
+				return nil, false
+			}
+		}
+	case *ast.AssignStmt:
+		if c, isCall := unparen(head).(*ast.CallExpr); isCall && len(x.Rhs) == 1 {
+			if _, hd := fo.freshCallee(c); hd != nil {
+				return nil, false
+			}
+		}
+	case *ast.ExprStmt:
+		if c, isCall := unparen(head).(*ast.CallExpr); isCall {
+			if _, hd := fo.freshCallee(c); hd != nil {
+				return nil, false
+			}
+		}
+	}
+	var first func(e ast.Expr) *ast.CallExpr
+	first = func(e ast.Expr) *ast.CallExpr {
+		switch x := e.(type) {
+		case *ast.ParenExpr:
+			return first(x.X)
+		case *ast.UnaryExpr:
+			if x.Op == token.ARROW {
+				return nil
+			}
+			return first(x.X)
+		case *ast.BinaryExpr:
+			return first(x.X)
+		case *ast.StarExpr:
+			return first(x.X)
+		case *ast.SelectorExpr:
+			return first(x.X)
+		case *ast.TypeAssertExpr:
+			return first(x.X)
+		case *ast.IndexExpr:
+			return first(x.X)
+		case *ast.SliceExpr:
+			return first(x.X)
+		case *ast.CallExpr:
+			if x.Ellipsis.IsValid() {
+				return nil
+			}
+			if f, hd := fo.freshCallee(x); hd != nil && hd != within && !fo.recursive(f, hd) {
+				if len(hd.Body.List) == 1 {
+					if _, single := hd.Body.List[0].(*ast.ReturnStmt); single {
+						return nil // a single-expression helper is substituted in place
+					}
+				}
+				sig, _ := f.Type().(*types.Signature)
+				if sig == nil || sig.Results().Len() != 1 {
+					return nil
+				}
+				for _, a := range x.Args {
+					if !pureExpr(a) {
+						return nil
+					}
+				}
+				if sel, ok := unparen(x.Fun).(*ast.SelectorExpr); ok && !pureExpr(sel.X) {
+					return nil
+				}
+				return x
+			}
+			// another call: its function operand, then its first argument, come first
+			if !pureExpr(x.Fun) {
+				if sel, ok := unparen(x.Fun).(*ast.SelectorExpr); !ok || !pureExpr(sel.X) {
+					return nil
+				}
+			}
+			if len(x.Args) > 0 {
+				return first(x.Args[0])
+			}
+		}
+		return nil
+	}
+	c := first(head)
+	if c == nil {
+		return nil, false
+	}
+	tv, ok := fo.info.Types[c]
+	if !ok || tv.Type == nil {
+		return nil, false
+	}
+	if _, isTuple := tv.Type.(*types.Tuple); isTuple {
+		return nil, false
+	}
+	if fo.prefix == nil {
+		fo.prefix = map[ast.Node][]token.Pos{}
+	}
+	fo.hoisted++
+	pos := s.Pos() - 1
+	v := types.NewVar(pos, fo.p.Types, fmt.Sprintf("hoisted%d", fo.hoisted), tv.Type)
+	def := &ast.Ident{Name: v.Name(), NamePos: pos}
+	fo.info.Defs[def] = v
+	use := &ast.Ident{Name: v.Name(), NamePos: c.Pos()}
+	fo.info.Uses[use] = v
+	fo.info.Types[use] = tv
+	replaced := false
+	astutil.Apply(s, func(cur *astutil.Cursor) bool {
+		if cur.Node() == ast.Node(c) && !replaced {
+			cur.Replace(use)
+			replaced = true
+			return false
+		}
+		return !replaced
+	}, nil)
+	if !replaced {
+		return nil, false
+	}
+	as := &ast.AssignStmt{Lhs: []ast.Expr{def}, Tok: token.DEFINE, TokPos: pos, Rhs: []ast.Expr{c}}
+	pre := fo.prefix[s]
+	fo.prefix[as], fo.prefix[def], fo.prefix[use] = pre, pre, fo.prefix[c]
+	fo.touch(within)
+	return as, true
 }
 
 func (fo *folder) foldStmt(s ast.Stmt, within *ast.FuncDecl) ([]ast.Stmt, bool) {
@@ -750,6 +1118,231 @@ func (fo *folder) foldStmt(s ast.Stmt, within *ast.FuncDecl) ([]ast.Stmt, bool) 
 	}
 	fo.touch(within)
 	return out, true
+}
+
+// scalarReplace replaces, in fd, every local variable v of a fresh named struct type T (or *T) that is created in place
+// (`v := T{…}`, `v := &T{…}`, `v := new(T)`, `var v T`) and used only through direct field selections `v.f` by one
+// variable per field; it returns the number of locals replaced.  This undoes "closure capturing locals -> method on a
+// small state struct" once the method value has been folded back into a function literal.
+func (fo *folder) scalarReplace(fd *ast.FuncDecl, fresh func(*types.TypeName) bool) int {
+	info := fo.info
+	if fo.prefix == nil {
+		fo.prefix = map[ast.Node][]token.Pos{}
+	}
+	count := 0
+	done := map[types.Object]bool{}
+	for iter := 0; iter < 8; iter++ {
+		// candidate definitions
+		type cand struct {
+			stmt  ast.Stmt
+			v     types.Object
+			named *types.Named
+			lit   *ast.CompositeLit
+		}
+		var cands []cand
+		structOf := func(t types.Type) *types.Named {
+			if p, ok := t.(*types.Pointer); ok {
+				t = p.Elem()
+			}
+			n, ok := t.(*types.Named)
+			if !ok || !fresh(n.Obj()) {
+				return nil
+			}
+			if _, isStruct := n.Underlying().(*types.Struct); !isStruct || n.TypeArgs().Len() > 0 {
+				return nil
+			}
+			return n
+		}
+		ast.Inspect(fd.Body, func(n ast.Node) bool {
+			switch x := n.(type) {
+			case *ast.AssignStmt:
+				if x.Tok != token.DEFINE || len(x.Lhs) != 1 || len(x.Rhs) != 1 {
+					return true
+				}
+				id, ok := x.Lhs[0].(*ast.Ident)
+				if !ok || info.Defs[id] == nil || done[info.Defs[id]] {
+					return true
+				}
+				v := info.Defs[id]
+				named := structOf(v.Type())
+				if named == nil {
+					return true
+				}
+				e := unparen(x.Rhs[0])
+				if u, ok := e.(*ast.UnaryExpr); ok && u.Op == token.AND {
+					e = unparen(u.X)
+				}
+				switch y := e.(type) {
+				case *ast.CompositeLit:
+					cands = append(cands, cand{x, v, named, y})
+				case *ast.CallExpr:
+					if b, ok := info.Uses[identOf(y.Fun)].(*types.Builtin); ok && b.Name() == "new" {
+						cands = append(cands, cand{x, v, named, nil})
+					}
+				}
+			case *ast.DeclStmt:
+				gd, ok := x.Decl.(*ast.GenDecl)
+				if !ok || gd.Tok != token.VAR || len(gd.Specs) != 1 {
+					return true
+				}
+				vs := gd.Specs[0].(*ast.ValueSpec)
+				if len(vs.Names) != 1 || len(vs.Values) != 0 || info.Defs[vs.Names[0]] == nil || done[info.Defs[vs.Names[0]]] {
+					return true
+				}
+				v := info.Defs[vs.Names[0]]
+				if _, isPtr := v.Type().(*types.Pointer); isPtr {
+					return true // a nil pointer, not a struct in place
+				}
+				if named := structOf(v.Type()); named != nil {
+					cands = append(cands, cand{x, v, named, nil})
+				}
+			}
+			return true
+		})
+		var pick *cand
+		for i := range cands {
+			c := &cands[i]
+			done[c.v] = true
+			ok, uses := true, 0
+			selOf := map[*ast.Ident]bool{}
+			ast.Inspect(fd.Body, func(n ast.Node) bool {
+				if sel, isSel := n.(*ast.SelectorExpr); isSel {
+					if id, isId := sel.X.(*ast.Ident); isId && info.Uses[id] == c.v {
+						s := info.Selections[sel]
+						if s != nil && s.Kind() == types.FieldVal && len(s.Index()) == 1 {
+							selOf[id] = true
+						}
+					}
+				}
+				return true
+			})
+			ast.Inspect(fd.Body, func(n ast.Node) bool {
+				if id, isId := n.(*ast.Ident); isId && info.Uses[id] == c.v {
+					uses++
+					if !selOf[id] {
+						ok = false
+					}
+				}
+				return true
+			})
+			if c.lit != nil {
+				for _, el := range c.lit.Elts {
+					if kv, isKV := el.(*ast.KeyValueExpr); isKV {
+						if _, isId := kv.Key.(*ast.Ident); !isId {
+							ok = false
+						}
+					}
+				}
+			}
+			if ok {
+				pick = c
+				break
+			}
+		}
+		if pick == nil {
+			break
+		}
+		st := pick.named.Underlying().(*types.Struct)
+		// the type's declaration, for the field type expressions
+		var fieldType []ast.Expr
+		for _, file := range fo.p.Syntax {
+			ast.Inspect(file, func(n ast.Node) bool {
+				ts, ok := n.(*ast.TypeSpec)
+				if !ok || info.Defs[ts.Name] != types.Object(pick.named.Obj()) {
+					return true
+				}
+				if stt, ok := ts.Type.(*ast.StructType); ok {
+					for _, f := range stt.Fields.List {
+						k := len(f.Names)
+						if k == 0 {
+							k = 1
+						}
+						for j := 0; j < k; j++ {
+							fieldType = append(fieldType, f.Type)
+						}
+					}
+				}
+				return false
+			})
+		}
+		if len(fieldType) != st.NumFields() {
+			continue
+		}
+		vars := make([]*types.Var, st.NumFields())
+		inits := make([]ast.Expr, st.NumFields())
+		if pick.lit != nil {
+			for i, el := range pick.lit.Elts {
+				if kv, isKV := el.(*ast.KeyValueExpr); isKV {
+					for j := 0; j < st.NumFields(); j++ {
+						if st.Field(j).Name() == kv.Key.(*ast.Ident).Name {
+							inits[j] = kv.Value
+						}
+					}
+				} else if i < len(inits) {
+					inits[i] = el
+				}
+			}
+		}
+		pre := fo.prefix[pick.stmt]
+		var repl []ast.Stmt
+		for j := 0; j < st.NumFields(); j++ {
+			f := st.Field(j)
+			pos := pick.stmt.Pos()
+			if inits[j] != nil {
+				pos = inits[j].Pos()
+			}
+			vars[j] = types.NewVar(pos, f.Pkg(), pick.v.Name()+"_"+f.Name(), f.Type())
+			id := &ast.Ident{Name: vars[j].Name(), NamePos: pos}
+			info.Defs[id] = vars[j]
+			fo.prefix[id] = pre
+			var stn ast.Stmt
+			if inits[j] != nil {
+				stn = &ast.AssignStmt{Lhs: []ast.Expr{id}, Tok: token.DEFINE, TokPos: pos, Rhs: []ast.Expr{inits[j]}}
+			} else {
+				cl := fo.newCloner(pick.stmt)
+				te := cl.node(fieldType[j]).(ast.Expr)
+				vs := &ast.ValueSpec{Names: []*ast.Ident{id}, Type: te}
+				fo.prefix[vs] = pre
+				gd := &ast.GenDecl{Tok: token.VAR, TokPos: pos, Specs: []ast.Spec{vs}}
+				fo.prefix[gd] = pre
+				stn = &ast.DeclStmt{Decl: gd}
+			}
+			fo.prefix[stn] = pre
+			repl = append(repl, stn)
+		}
+		replaced := false
+		astutil.Apply(fd.Body, func(c *astutil.Cursor) bool {
+			switch x := c.Node().(type) {
+			case *ast.SelectorExpr:
+				if id, isId := x.X.(*ast.Ident); isId && info.Uses[id] == pick.v {
+					s := info.Selections[x]
+					nv := vars[s.Index()[0]]
+					nid := &ast.Ident{Name: nv.Name(), NamePos: x.Pos()}
+					info.Uses[nid] = nv
+					if tv, ok := info.Types[x]; ok {
+						info.Types[nid] = tv
+					}
+					fo.prefix[nid] = fo.prefix[x]
+					c.Replace(nid)
+					return false
+				}
+			case ast.Stmt:
+				if x == pick.stmt && c.Index() >= 0 {
+					for _, r := range repl {
+						c.InsertBefore(r)
+					}
+					c.Delete()
+					replaced = true
+					return false
+				}
+			}
+			return true
+		}, nil)
+		if replaced {
+			count++
+		}
+	}
+	return count
 }
 
 func (fo *folder) touch(fd *ast.FuncDecl) {
